@@ -52,6 +52,10 @@ def parse_cases():
     # a string literal is never a delimiter, separator or operator, whatever its content (C05, C10)
     c += ["[1 ',' 2]", 'max(1 "," 2)', "{1 ':' 2}", "true ? 1 ':' 2", "{1:2 ',' 3:4}", "a '('", "sep '('", "(1 + 2 ')'", "f(')'", "sum(1, 2 ')'", 'x = y\n"(" == x', "[1 ']'", "{1: 2 '}'", "1 '+' 2", "a 'in' b", "'-' 1",
           "x '=' 1", "1 ';' 2", "f '(' 1 ')'", "'not' true", "'[' 1 ']'", "a '?' b ':' c"]
+    # characters whose code point ends in the byte of a quote, blank, delimiter, digit or operator character (C10 / C05 / C01: characters are never classified by their low byte)
+    for u in ['\u2022', '\u5927', '\u0127', '\u0122', '\u2020', '\u0120', '\u010d', '\u0109', '\u010a', '\u0128', '\u0129', '\u012c', '\u013b', '\u013a', '\u0131', '\u0130', '\u017b', '\u017d', '\u015b', '\u015d', '\u012b', '\u012d', '\u013d', '\u0121', '\u0165', '\u0145']:
+        c += ['"a %s b"' % u, "'%s'" % u, "'%s%s' == '%s%s'" % (u, u, u, u), '[1 %s, 2]' % u, '(1 %s)' % u, 'max(1 %s, 2)' % u, '{1:2 %s}' % u, '%s' % u, 'a%sb' % u, '1 + %s' % u, '%s(1)' % u, '1%s' % u, "x = '%s'; x" % u]
+    c += ["']' in ['[', ']']", "['a', ']', 1+1]", "{'}': 1, 'k': 2>1}", "'EOF' == 'EOF'", "1 + 2; 'EOF' beginWith 'E'", "(')')", "f(')')", "[')', '(', ',', ':', ';', '?', '{', '}']", "'EOF'", "['EOF', 1]", "EOF", "EOF + 1", "true ? ':' : '?'", "{':': ','}", "';' == ';'; 2"]
     # multi-byte neighbours (C01 / C10)
     for u in ['é', 'ü', '日本', '🙂', 'ключ']:
         c += ['+%s' % u, '1+%s' % u, 'a>=%s' % u, '!%s' % u, 'x &&%s' % u, "'%s'" % u, "'%s'=='%s'" % (u, u), "['%s',1,2]" % u, "{'%s':1}" % u, "f('%s')" % u, "'%s')" % u, "['%s',,1]" % u,
@@ -107,6 +111,10 @@ def exec_cases():
           '{1: 2, 3: 4} == {3: 4, 1: 2}', '[1, 2] == [2, 1]', '[[]] == []', '[1, 2] in [[1], [1, 2, 3]]', '[] in [[]]', '{} in [{}]', '[{}] == [{1: 1}]',
           # a zero keeps its digits like any other number (C09)
           '0.00', '1.5 - 1.50', '4.50 % 1.5', '0.0 + 0.00', '0.000 * 5', 'z = 0.0; z', '[0.00, 0, 0.0]', '0.10 - 0.1', '2.50 - 2.5 == 0', '-0.00', '0.00 == 0',
+          # a string literal whose content is a delimiter, separator, operator or the word EOF is a string like any other (C03 / C05 / C10)
+          "']' in ['[', ']']", "['a', ']', 1+1]", "{'}': 1, 'k': 2>1}", "'EOF' == 'EOF'", "1 + 2; 'EOF' beginWith 'E'", "(')')", "id(')')", "[')', '(', ',', ':', ';', '?', '{', '}']", "cnt('(', ')')", "'EOF'", "['EOF', 1]", "x = ']'; x", "true ? ':' : '?'", "{':': ','}", "',' in [',', ';']", "';' == ';'; 2",
+          # map entries are evaluated in source order, whatever their keys look like, duplicates included (C07)
+          '{two(): one(), one(): two()}', '{t(): 1, one(): 2, cnt(): 3}', '{one(): two(), one(): t()}', '{two(): boom(), one(): t()}', '{t(): f(), id(1): cnt(), f(): one()}', "{'b': one(), 'a': two()}", '{2: two(), 1: one()}', '{two(): 1, boom(): 2, one(): 3}',
           # a chain whose LAST statement has an effect (C07/C06: every statement runs exactly once, the last one included)
           'a = 1; one()', 'x = 10; y = 1; x += 5', 'one(); two()', 'x = 2; x *= x', 'one(); boom()', 't(); cnt(one())', 'x = 1; y = 2; x <<= y', 'one();', 'x = 1; x += 1;', 'x = 1; x += 1; x += 1', 'two(); one(); one()', 'x = 3; x -= 1; x -= 1;', 'x = 5; one(); x %= 3',
           # membership over elements with effects (C07: every element is evaluated, left to right, before the test)
